@@ -314,7 +314,42 @@ def rule_s6(ctx):
             rep.ob('S6', 'core.from_dataset::mode-forwarded(%s)' % A.dotted(n.func), ok, n, '')
 
 
+def rule_s7(ctx):
+    """in the cache classes a value is written to the store before it is handed out: no path from a yield / the
+    consumer's hands back to a store of the same value"""
+    rep = ctx.report
+    from ..cfg import CFG, normal
+    cd = ctx.repo.cls('core.CacheDataset')
+    n = 0
+    for cls in [cd] + ctx.repo.subclasses(cd):
+        for mname, mem in cls.members.items():
+            if not mem.is_function:
+                continue
+            fn = mem.node
+            stores = [s for s in A.walk_local(fn) if isinstance(s, ast.Assign) and isinstance(s.targets[0], ast.Subscript)
+                      and ('_cache' in A.src(s.targets[0].value))]
+            if not stores:
+                continue
+            n += 1
+            g = CFG(fn)
+            ynodes = [nd for nd in g.stmt_nodes() if nd.kind == 'stmt' and A.contains_yield(nd.ast)]
+            snodes = {nd.id for nd in g.stmt_nodes() if any(nd.ast is s for s in stores)}
+            bad = None
+            for y in ynodes:
+                yielded = {x.id for x in ast.walk(y.ast) if isinstance(x, ast.Name)}
+                p = g.path_avoiding(y.id, lambda nd: nd.id in snodes and bool(
+                    yielded & {x.id for x in ast.walk(nd.ast.value) if isinstance(x, ast.Name)}), None, edge_ok=normal)
+                if p is not None:
+                    bad = p
+            rep.ob('S7', K.key(cls, mname, 'stored-before-handed-out'), bad is None, bad[-1].ast if bad else fn,
+                   '' if bad is None else 'an example is yielded to the consumer and written to the cache afterwards: what '
+                   'gets cached is the object the consumer may already have modified',
+                   path=[repr(x) for x in bad if x.ast is not None] if bad else None)
+    rep.floor('functions that write the cache', n, 1)
+
+
 def run(ctx):
+    rule_s7(ctx)
     table = rule_s1(ctx)
     rule_s2(ctx)
     rule_s3(ctx)
